@@ -561,7 +561,11 @@ func redactPipelineStage(stage interface{}, redactFieldNames bool, keyPath []str
 							isSelectivelyRedactable := isRedactableFieldPatternInArray(subVTyped)
 							newSubMap.Set(redactedSubK, redactArrayValues(subVTyped, redactFieldNames, inSearchStage, isSelectivelyRedactable, append(newKeyPath, subK)))
 						default:
-							newSubMap.Set(redactedSubK, redactScalarValue(append(newKeyPath, subK), subV, inSearchStage, false))
+							if str, ok := subV.(string); ok && len(str) > 0 && str[0] == '$' && redactFieldNames && !inSearchStage {
+								newSubMap.Set(redactedSubK, HashName(str))
+							} else {
+								newSubMap.Set(redactedSubK, redactScalarValue(append(newKeyPath, subK), subV, inSearchStage, false))
+							}
 						}
 					}
 					newMap.Set(redactedKey, newSubMap)
@@ -570,6 +574,11 @@ func redactPipelineStage(stage interface{}, redactFieldNames bool, keyPath []str
 			}
 			if str, ok := v.(string); ok && len(str) > 0 && str[0] == '$' && !redactFieldNames {
 				newMap.Set(redactedKey, v)
+				continue
+			}
+			if str, ok := v.(string); ok && len(str) > 0 && str[0] == '$' && redactFieldNames {
+				// a field reference: the same pseudonym as the key it refers to, not the generic placeholder
+				newMap.Set(redactedKey, HashName(str))
 				continue
 			}
 			switch vTyped := v.(type) {
